@@ -16,9 +16,9 @@ func init() {
 	register(&mon.Spec{
 		ID:    "C07",
 		Level: "exploration",
-		Rule: "nine gate scripts against p9p.ServeConn with a scripted Handler, each repeated R times with PRNG-chosen tags, message kinds, extra background requests and sub-orderings (the server's own select between 'completed' and 'context done' is random, hence the repetitions): " +
+		Rule: "ten gate scripts against p9p.ServeConn with a scripted Handler, each repeated R times with PRNG-chosen tags, message kinds, extra background requests and sub-orderings (the server's own select between 'completed' and 'context done' is random, hence the repetitions): " +
 			"(1) flush while the handler runs, handler honours cancellation; (2) handler ignores cancellation and completes after the Rflush; (3) as 2 but the tag is reused by request B before A completes, A then B; (4) as 3 with A and B completing together; " +
-			"(5) completion and Tflush issued back-to-back in both orders; (6) flush of a tag that was never used; (7) flush naming its own tag; (8) double flush; (9) flush, then immediate reuse of the tag (must be dispatched, not refused as duplicate). " +
+			"(5) completion and Tflush issued back-to-back in both orders; (6) flush of a tag that was never used; (7) flush naming its own tag; (8) double flush; (9) flush, then immediate reuse of the tag (must be dispatched, not refused as duplicate); (10) the client stops reading so that the server's writer and serve loop stall, then a request and the Tflush naming it arrive in one write. " +
 			"Oracle over the wire log (reference-codec parsed) and handler observations: flushed handler's ctx is Done once the flush is answered; every Tflush gets exactly one reply; no reply to the flushed request after the flush reply (at most one before it, in script 5); a reply on a reused tag carries the new request's uid, never the flushed one's; every non-flushed request is answered exactly once. " +
 			"non-trivial = the flushed handler returned after the cancellation (late completion); distinct by (script, variant, background pattern)",
 		Assumptions: []string{
@@ -30,7 +30,7 @@ func init() {
 		Shards:    shards(8, 16),
 		Timeout:   timeouts(3*time.Minute, 40*time.Minute),
 		MinEvals:  100,
-		Required:  []string{"script:1", "script:2", "script:3", "script:4", "script:5", "script:6", "script:7", "script:8", "script:9", "late_completions", "flush_replies_checked", "ctx_done_observed", "reused_tag_replies_checked"},
+		Required:  []string{"script:1", "script:2", "script:3", "script:4", "script:5", "script:6", "script:7", "script:8", "script:9", "script:10", "late_completions", "flush_replies_checked", "ctx_done_observed", "reused_tag_replies_checked"},
 		Run:       runC07,
 	})
 }
@@ -108,7 +108,7 @@ func (c *c07) complete(uid int) {
 func runC07(w *mon.W) {
 	R := w.Scale(90, 3000)
 	caseNo := 0
-	for script := 1; script <= 9; script++ {
+	for script := 1; script <= 10; script++ {
 		for rep := 0; rep < R; rep++ {
 			caseNo++
 			if !w.Mine(caseNo) {
@@ -123,7 +123,11 @@ func runC07Case(w *mon.W, script, no int) {
 	honour := script == 1
 	sh := &scriptHandler{honour: func(p9p.Message) bool { return honour }}
 	w.Case("C07 script %d case #%d", script, no)
-	h, err := newSrvH(sh, 8192, 1<<20)
+	bufCap := 1 << 20
+	if script == 10 {
+		bufCap = 96 // a connection that buffers little: the server's writer can be stalled
+	}
+	h, err := newSrvH(sh, 8192, bufCap)
 	if err != nil {
 		w.Inconclusive("handshake: %v", err)
 		h.close()
@@ -132,6 +136,10 @@ func runC07Case(w *mon.W, script, no int) {
 	defer h.close()
 	w.Eval()
 	w.Count(fmt.Sprintf("script:%d", script), 1)
+	if script == 10 {
+		runC07Stalled(w, h, sh, no)
+		return
+	}
 	c := &c07{w: w, h: h, sh: sh, no: no}
 	r := w.Rng
 	tagPool := []p9p.Tag{0, 1, 7, 0x00FF, 0x0100, 0xFFFE, p9p.NOTAG, p9p.Tag(r.Intn(65536))}
@@ -388,4 +396,84 @@ func runC07Case(w *mon.W, script, no int) {
 	if w.SampleDue(23) {
 		w.Sample(map[string]interface{}{"script": script, "variant": variant, "tag": t, "flush_tag": f, "background_requests": nbg, "trace": c.trace})
 	}
+}
+
+// runC07Stalled (script 10): the client stops reading, so the server's writer and then its
+// serve loop stall behind unread replies; a request and the Tflush naming it then arrive
+// back to back. When the client reads again the flush must still find its request
+// outstanding: handler cancelled, flush acknowledged, nothing for the request afterwards.
+func runC07Stalled(w *mon.W, h *srvH, sh *scriptHandler, no int) {
+	c := &c07{w: w, h: h, sh: sh, no: no}
+	// requests on fids >= 1000 are answered at once with a bulky result
+	sh.instant = func(msg p9p.Message) (p9p.Message, error, bool) {
+		if ts, ok := msg.(p9p.MessageTstat); ok && ts.Fid >= 1000 {
+			return p9p.MessageRstat{Stat: p9p.Dir{Name: fmt.Sprintf("bulk-%d-%s", ts.Fid, strings.Repeat("x", 40))}}, nil, true
+		}
+		return nil, nil, false
+	}
+	h.pauseReads()
+	for i := 0; i < 4; i++ {
+		c.send(p9p.Tag(200+i), p9p.MessageTstat{Fid: p9p.Fid(1000 + i)})
+		if !c.settle() {
+			h.resumeReads()
+			return
+		}
+	}
+	// the server is now stuck: writer in Write, serve loop handing over the next reply
+	a := 1
+	fa := refcodec.MustFrame(&p9p.Fcall{Type: p9p.Tstat, Tag: 7, Message: p9p.MessageTstat{Fid: p9p.Fid(a)}})
+	ff := refcodec.MustFrame(&p9p.Fcall{Type: p9p.Tflush, Tag: 8, Message: p9p.MessageTflush{Oldtag: 7}})
+	c.trace = append(c.trace, "send Tstat tag=7 uid=1 and Tflush tag=8 oldtag=7 in one write while the server is stalled")
+	h.sendRaw(append(fa, ff...))
+	if !c.settle() {
+		h.resumeReads()
+		return
+	}
+	h.resumeReads()
+	if !c.settle() {
+		return
+	}
+	rs := h.take()
+	var flushReply *p9p.Fcall
+	aReplies := 0
+	for _, r := range rs {
+		switch {
+		case r.Tag == 8:
+			flushReply = r
+		case r.Tag == 7:
+			aReplies++
+		}
+	}
+	w.Count("flush_replies_checked", 1)
+	if flushReply == nil {
+		c.bad("missing-reply:flush", "stalled server: the Tflush sent right behind its request was never answered; replies %s", describeReplies(rs))
+		return
+	}
+	in := c.inv(a)
+	if in == nil {
+		// the request may have been flushed before it was ever dispatched: fine, as long as it stays silent
+		if aReplies > 0 {
+			c.bad("reply-after-rflush", "stalled server: the flushed request was answered: %s", describeReplies(rs))
+		}
+		w.NT("s10/not-dispatched")
+		return
+	}
+	if in.ctx.Err() == nil {
+		c.bad("ctx-not-cancelled", "stalled server: a Tflush arriving right behind its request did not cancel the request's handler (flush reply: %s)", refcodec.Describe(flushReply))
+		return
+	}
+	w.Count("ctx_done_observed", 1)
+	// late completion: nothing may be sent for the flushed request
+	w.Count("late_completions", 1)
+	c.complete(a)
+	if !c.settle() {
+		return
+	}
+	for _, r := range h.take() {
+		if r.Tag == 7 {
+			c.bad("reply-after-rflush", "stalled server: a reply to the flushed request was sent after the flush was acknowledged: %s", refcodec.Describe(r))
+			return
+		}
+	}
+	w.NT("s10/dispatched")
 }
